@@ -256,6 +256,10 @@ impl<'tcx> Cx<'tcx> {
     }
 
     fn block(&self, b: &'tcx hir::Block<'tcx>) -> J {
+        self.block_ty(b, None)
+    }
+
+    fn block_ty(&self, b: &'tcx hir::Block<'tcx>, ty: Option<String>) -> J {
         let mut stmts = vec![];
         for st in b.stmts {
             match st.kind {
@@ -279,7 +283,13 @@ impl<'tcx> Cx<'tcx> {
         if let Some(e) = b.expr {
             v.push(("expr", self.expr(e)));
         }
+        if let Some(t) = ty {
+            v.push(("ty", s(t)));
+        }
         v.push(("sp", span_j(self.tcx, b.span)));
+        if b.span.from_expansion() {
+            v.push(("exp", expn_j(b.span)));
+        }
         J::Obj(v)
     }
 
@@ -426,7 +436,7 @@ impl<'tcx> Cx<'tcx> {
                 v.push(("body", self.expr(body.value)));
             }
             ExprKind::Block(b, _) => {
-                return self.block(b);
+                return self.block_ty(b, Some(ty_str(tr.expr_ty(e))));
             }
             ExprKind::Assign(l, r, _) => {
                 v.push(("k", s("Assign")));
